@@ -34,6 +34,7 @@ ATTR_TEXT = "bibstr"
 ATTR_IMPL_START = "_implicit_comment_start"
 ATTR_IMPL_LINE = "_implicit_comment_start_line"
 M_NEXT_MARK = "_next_mark"
+P_ACCEPT_EOF = "accept_eof"      # the fetch method's parameter "end of input is acceptable here" (found by role: see configure)
 M_END_IMPLICIT = "_end_implicit_comment"
 _CONFIGURED_FOR = None
 
@@ -46,7 +47,7 @@ def _self_attr(node):
 
 def configure(program: Program):
     """Discovers the role-bearing names of the Splitter from the source."""
-    global ATTR_PENDING, ATTR_INDEX, ATTR_LINE, ATTR_ITER, ATTR_TEXT, ATTR_IMPL_START, ATTR_IMPL_LINE, M_NEXT_MARK, M_END_IMPLICIT, _CONFIGURED_FOR
+    global ATTR_PENDING, ATTR_INDEX, ATTR_LINE, ATTR_ITER, ATTR_TEXT, ATTR_IMPL_START, ATTR_IMPL_LINE, M_NEXT_MARK, M_END_IMPLICIT, P_ACCEPT_EOF, _CONFIGURED_FOR
     if _CONFIGURED_FOR is program:
         return
     cls = program.cls("splitter", "Splitter")
@@ -130,6 +131,16 @@ def configure(program: Program):
     ATTR_ITER, ATTR_PENDING, ATTR_INDEX, ATTR_LINE, ATTR_TEXT = it_attr, pend, idx, line, text
     ATTR_IMPL_START, ATTR_IMPL_LINE = ist, iln
     M_NEXT_MARK, M_END_IMPLICIT = nm.name, ei[0].name
+    # the parameter of the fetch method that says whether the end of the input is acceptable: its only parameter, or the one the
+    # method tests / the one with a boolean default
+    prm = [a.arg for a in nm.node.args.args[1:]] + [a.arg for a in nm.node.args.kwonlyargs]
+    if len(prm) == 1:
+        P_ACCEPT_EOF = prm[0]
+    elif "accept_eof" in prm or not prm:
+        P_ACCEPT_EOF = "accept_eof"
+    else:
+        tested = [x.id for n in own_nodes(nm.node) if isinstance(n, (ast.If, ast.IfExp)) for x in ast.walk(n.test) if isinstance(x, ast.Name) and x.id in prm]
+        P_ACCEPT_EOF = tested[0] if tested else prm[0]
     _CONFIGURED_FOR = program
 
 
@@ -236,7 +247,7 @@ class SplitRun:
             if v.ops == ():
                 return (self.norm(v.lo), self.norm(v.hi), "nostrip")
             return (self.norm(v.lo), self.norm(v.hi), ".".join(v.ops))
-        return ("not-a-slice", self.norm(v))
+        return ("not-a-slice", self.norm(v), "not-a-slice")
 
     def ref_slice(self, t):
         if t is None:
@@ -527,7 +538,7 @@ class SplitExplorer:
         def next_mark(it: Interp, fn, args, kwargs, node):
             run: SplitRun = run_holder[0]
             env = it.bind(fn.node, args, kwargs, fn.self_val, fn.module, "_next_mark")
-            accept_eof = env.get("accept_eof")
+            accept_eof = env.get(P_ACCEPT_EOF)
             sp = fn.self_val
             pend = sp.attrs.get(ATTR_PENDING)
             if pend is not None:
